@@ -627,7 +627,7 @@ func (r *runner) confirmAndMinimise(c *candidate, tier string) (string, *replayF
 	// gets a few attempts - a finding that never reproduces is reported as machinery trouble.
 	attempts := 2
 	if c.v.Oracle == "race" {
-		attempts = 6
+		attempts = 15
 	}
 	ok := false
 	for i := 0; i < attempts && !ok; i++ {
